@@ -134,7 +134,7 @@ GrantAllowed(ev) ==
 \* sandbox whose memory it lives in, so they are equal iff they designate the same object
 CellCmpAllowed(ev) ==
   LET same == ev.sbl = ev.sbr /\ ev.offl = ev.offr IN
-  ev.out = "ok" /\ ev.eq = same /\ ev.ne = ~same
+  IF ev.out = "ok" THEN ev.eq = same /\ ev.ne = ~same ELSE ev.out = "abort"   \* (an extra refusal is inside)
 
 \* storing application address (sb, off) into a pointer cell of sandbox `own`
 PtrStoreAllowed(ev) ==
